@@ -63,12 +63,35 @@ _add("SmVerif.Tie.Detect", "RsDetector", [_T + "Detect." + n for n in
     "tie_lines_aux tie_lines_total tie_lines tie_trim locate_total tie_locate_sourcemap_reference locate_error_is_io locate_invalid_utf8 valid_hypothesis_needed locate_before_invalid gen_c18_locate gen_c18_first_line gen_c18_none_iff gen_c18_legacy_iff gen_c18_embedded".split()])
 _add("SmVerif.Tie.Detect", "RsDetectCommon", [_T + "Detect." + n for n in "tie_is_sourcemap_common gen_c18_detects_serialised gen_c18_detects_serialised'".split()])
 _add("SmVerif.Tie.Prefix", "RsPrefix", [_T + "Prefix.tie_prefix_source", _T + "Prefix.prefix_source_total"])
+_add("SmVerif.Tie.Prefix", "RsTypes", [_T + "Prefix.tie_prefix_source_types", _T + "Prefix.prefix_source_units_agree"])
+_add("SmVerif.Tie.Builder", "RsBuilder", [_T + n for n in
+    "tie_new tie_set_debug_id tie_set_file tie_get_file tie_set_source_root tie_get_source_root tie_add_to_ignore_list".split()])
+_add("SmVerif.Tie.Builder2", "RsTypes", [_T + n for n in
+    "tie_sm_get_file tie_sm_get_source tie_sm_get_source_contents tie_sm_get_name tie_sm_add_to_ignore_list tie_sm_set_debug_id tie_sm_set_source_root sort_toTok tie_sm_new tie_token_get_source tie_token_get_name".split()])
+_add("SmVerif.Tie.Builder2", "RsBuilder", [_T + n for n in
+    "tie_add_token_gen tie_add_token add_token_offset tie_strip_loop2 tie_strip_prefixes strip_prefixes_needs_utf8 tie_into_sourcemap tie_run_into_sourcemap".split()])
+_add("SmVerif.Tie.Flatten", "RsFlatten", [_T + n for n in
+    "tie_flatten_token tie_flatten_token_rel tie_flatten_toks_along tie_flatten_tokens tie_flatten_tokens_error gen_c08_flatten_col_only_first_line gen_c08_flatten_line_overflow gen_c08_flatten_col_overflow gen_c08_flatten_token_pos".split()])
+_add("SmVerif.Tie.Rewrite", "RsRewrite", [_T + n for n in
+    "tie_rewrite_token tie_rewrite_token_rel tie_rewrite_toks_along tie_rewrite_tokens tie_rewrite_tokens_error gen_c09_no_names gen_c09_no_names_token gen_c09_contents_only_if_asked gen_c09_contents_first_time".split()])
+_add("SmVerif.Tie.HermesDecode", "RsHermesDecode", [_T + "HermesDecode." + n for n in
+    "loop2_cons_err loop2_cons_ok tie_loop2 loop2_error_panic loop2_total tie_loop1 loop1_error_panic loop1_total tie_decode_function_map decode_function_map_nums_irrel decode_function_map_eq bytes_needed tie_decode_sources decodeAll_eq gen_c14_decode_eq_metro gen_c14_decode_all_eq_metro gen_c14_decode_unreadable gen_c14_decode_unparsable gen_c14_decode_bad_map_local gen_c14_decode_panic_iff gen_c14_decode_no_overflow gen_c14_decode_safe gen_c14_decode_all_safe".split()])
+_add("SmVerif.Tie.GetLine", "RsGetLine", [_T + "GetLine." + n for n in
+    "tie_scan_step loop1_done loop1_panic tie_loop1_above tie_loop1 tie_loop1_diverge tie_loop1_same_fuel loop1_fuel_witness loop1_enough get_line_seq_eq tie_get_line_seq tie_get_line_seq_fuel genRun_eq_runReqs gen_c15_inv gen_c15_get_line gen_c15_no_panic gen_c15_run gen_c16_loop_step gen_c16_loop_panic".split()])
 _add("SmVerif.Tie.Builder", "RsBuilder", [_T + n for n in
     "tie_add_source_with_id tie_add_source tie_add_name tie_add_with_id tie_add tie_add_raw tie_set_source tie_set_source_contents tie_get_source tie_get_source_contents tie_has_source_contents tie_take_mapping tie_step tie_run_along tie_run tie_run_error tie_run_gen add_source_with_id_truncation gen_c13_abs_add_source gen_c13_abs_add_name gen_c13_inv_reachable gen_c13_builder_refines gen_c13_token_resolves".split()])
 _add("SmVerif.Tie.JsIdent", "RsJsIdent", [_T + "JsIdent." + n for n in
     "tie_is_valid_start tie_is_valid_continue str_is_enc tie_chars_enc tie_char_indices tie_str_slice_prefix tie_strip_identifier strip_identifier_total tie_is_valid_javascript_identifier tie_first_word tie_get_javascript_token tie_strip_identifier_str tie_is_valid_javascript_identifier_str tie_get_javascript_token_str js_identifiers_total gen_c17_identifier_chars gen_is_valid_javascript_identifier gen_c17_not_identifier_none gen_c17_identifier_text".split()])
 _add("SmVerif.Tie.Reader", "RsReader", [_T + n for n in
     "tie_reader_is_junk_json tie_loop2 tie_loop2_chunk tie_loop1 tie_strip_head_read strip_head_read_zero tie_reader_read tie_reader_read_ok tie_reader_read_error tie_consume tie_reader_output gen_c12_chunking_irrelevant gen_c12_no_false_eof gen_c12_reader_eq_slice".split()])
+_add("SmVerif.Tie.Index", "RsIndex", [_T + "Index." + n for n in
+    "tie_index_lookup_token glb_section_some index_lookup_token_cases index_lookup_token_error gLookup_regular gLookup_hermes gLookup_index_gen gLookup_index gLookup_fuel_succ gLookup_fuel gLookup_total lookup_token_sm tie_leaf tie_gLookup tie_gLookup_index dmapLookup_eq_raw lookupAt_eq_raw rawLookup_index tie_leaf_raw tie_gLookup_raw gen_c08_no_underflow gen_c08_total_of_total gen_c08_lookup_total gen_c08_model_no_underflow gen_c08_section_choice gen_c08_unresolved_none gen_c08_section_choice_closed gen_c08_agree".split()])
+_add("SmVerif.Tie.Index", "RsDecodedMap", [_T + "Index." + n for n in
+    "gen_c04_dispatch_regular gen_c04_dispatch_hermes gen_c04_dispatch_index gen_c14_dispatch_hermes gen_c14_dispatch_regular gen_c14_dispatch_index gen_c14_dispatch_no_name gen_c14_dispatch_no_view gen_c14_dispatch_hermes_model".split()])
+_add("SmVerif.Tie.Index", "RsHermes", [_T + "Index." + n for n in
+    "tie_get_original_function_name tie_get_original_function_name' get_original_function_name_total gen_c14_scope_offset".split()])
+_add("SmVerif.Tie.Adjust", "RsAdjust", [_T + n for n in
+    "tie_sort_by_key_pair tie_sort_by_key_dst tie_sort_by_key_src tie_sort_toks tie_create_ranges tie_create_ranges_diverge create_ranges_spec tie_adjust_mappings_full tie_adjust_mappings tie_adjust_mappings_names tie_adjust_mappings_ok tie_adjust_mappings_error tie_adjust_mappings_diverge gen_c10_untouched gen_c10_sorted gen_c10_safe gen_c10_sound gen_c10_eq_spec gen_c10_panic_witness".split()])
 # property theorems restated about the generated code (compositions property o tie)
 _P = "SmVerif.Tie.Props."
 _add("SmVerif.Tie.Props", "RsVlq", [_P + n for n in [
@@ -87,19 +110,21 @@ PROP_MODULES = {
     "C01": ["SmVerif.Tie.Vlq", "SmVerif.Tie.Decode", "SmVerif.Tie.Serialize"],
     "C02": ["SmVerif.Tie.Vlq", "SmVerif.Tie.Decode", "SmVerif.Tie.Props", "SmVerif.Tie.Prefix"],
     "C03": ["SmVerif.Tie.Vlq", "SmVerif.Tie.Serialize"],
-    "C04": ["SmVerif.Tie.Lookup", "SmVerif.Tie.Props"],
-    "C05": ["SmVerif.Tie.Vlq", "SmVerif.Tie.Header", "SmVerif.Tie.Decode", "SmVerif.Tie.Lookup", "SmVerif.Tie.Hermes", "SmVerif.Tie.Serialize", "SmVerif.Tie.Props", "SmVerif.Tie.SourceView", "SmVerif.Tie.Detect", "SmVerif.Tie.RamBundle", "SmVerif.Tie.JsIdent", "SmVerif.Tie.Reader"],
+    "C04": ["SmVerif.Tie.Lookup", "SmVerif.Tie.Props", "SmVerif.Tie.Index"],
+    "C05": ["SmVerif.Tie.Vlq", "SmVerif.Tie.Header", "SmVerif.Tie.Decode", "SmVerif.Tie.Lookup", "SmVerif.Tie.Hermes", "SmVerif.Tie.Serialize", "SmVerif.Tie.Props", "SmVerif.Tie.SourceView", "SmVerif.Tie.Detect", "SmVerif.Tie.RamBundle", "SmVerif.Tie.JsIdent", "SmVerif.Tie.Reader", "SmVerif.Tie.Index", "SmVerif.Tie.Adjust", "SmVerif.Tie.HermesDecode", "SmVerif.Tie.GetLine", "SmVerif.Tie.Flatten", "SmVerif.Tie.Rewrite"],
     "C06": ["SmVerif.Tie.Vlq", "SmVerif.Tie.Decode", "SmVerif.Tie.Props"],
     "C07": ["SmVerif.Tie.Vlq", "SmVerif.Tie.Small", "SmVerif.Tie.Decode", "SmVerif.Tie.Lookup", "SmVerif.Tie.Serialize", "SmVerif.Tie.Props"],
+    "C10": ["SmVerif.Tie.Adjust"],
     "C11": ["SmVerif.Tie.Vlq", "SmVerif.Tie.Props"],
     "C12": ["SmVerif.Tie.Header", "SmVerif.Tie.Props2", "SmVerif.Tie.Reader"],
-    "C08": ["SmVerif.Tie.Builder"],
-    "C09": ["SmVerif.Tie.Builder"],
-    "C13": ["SmVerif.Tie.Prefix", "SmVerif.Tie.Builder"],
-    "C15": ["SmVerif.Tie.SourceView"],
+    "C08": ["SmVerif.Tie.Builder", "SmVerif.Tie.Builder2", "SmVerif.Tie.Flatten", "SmVerif.Tie.Index"],
+    "C09": ["SmVerif.Tie.Builder", "SmVerif.Tie.Builder2", "SmVerif.Tie.Rewrite"],
+    "C13": ["SmVerif.Tie.Prefix", "SmVerif.Tie.Builder", "SmVerif.Tie.Builder2"],
+    "C15": ["SmVerif.Tie.SourceView", "SmVerif.Tie.GetLine"],
+    "C16": ["SmVerif.Tie.GetLine"],
     "C18": ["SmVerif.Tie.Detect"],
     "C20": ["SmVerif.Tie.RamBundle"],
-    "C14": ["SmVerif.Tie.Vlq", "SmVerif.Tie.Hermes", "SmVerif.Tie.Props"],
+    "C14": ["SmVerif.Tie.Vlq", "SmVerif.Tie.Hermes", "SmVerif.Tie.Props", "SmVerif.Tie.Index", "SmVerif.Tie.HermesDecode"],
     "C17": ["SmVerif.Tie.Lookup", "SmVerif.Tie.JsIdent"],
     "C19": ["SmVerif.Tie.Paths"],
 }
